@@ -119,6 +119,9 @@ def run_tlc(module, cfg=None, workers=4, timeout=900, env=None, coverage=False, 
         m = re.match(r"^Error: Action property (\S+) is violated", line)
         if m:
             res["violated"] = m.group(1)
+        m = re.match(r"^Error: Temporal property (\S+) was violated", line)
+        if m:
+            res["violated"] = res["violated"] or m.group(1)
         if line.startswith("Error: Temporal properties were violated"):
             res["violated"] = res["violated"] or "temporal"
         if line.startswith("Error: The postcondition") or "Postcondition" in line and "violated" in line:
